@@ -829,6 +829,16 @@ class Analysis:
                 pre = w.split("\0")[0]
                 if pre:
                     families.add(pre)
+        # `for named_value in (append_trail, ...): add_constant(named_value.__name__, named_value)`
+        for cname in ("add_constant", "add_outer_constant"):
+            for c in self.calls.get(cname, []):
+                if c._module is not m or not c.args:
+                    continue
+                a0 = c.args[0]
+                if isinstance(a0, ast.Attribute) and a0.attr == "__name__" and isinstance(a0.value, ast.Name):
+                    for src in self.name_sources(a0.value) or []:
+                        if src[0] == "iter" and isinstance(src[1], ast.Tuple):
+                            fixed.update(x.id for x in src[1].elts if isinstance(x, ast.Name))
         # `_with_path_suffix(basis)`: basis + "_" + counter
         for c in self.calls.get("_with_path_suffix", []):
             if c._module is m and c.args and isinstance(c.args[0], ast.Constant):
